@@ -12,11 +12,11 @@ Definition f32_le := F32.le.
 Definition f32_argmax_generic := @argmax_generic F32.t F32.le.
 Definition f32_max_generic := @max_generic F32.t F32.le.
 Definition f32_threshold := @threshold_generic F32.t F32.le.
-Definition f32_argmax_avx2 := @argmax_f32_avx2 F32.t F32.le F32.lt.
+Definition f32_argmax_avx2 := @argmax_f32_avx2_fast F32.t F32.le F32.lt.
 Definition f32_max_avx2 := @max_f32_avx2 F32.t F32.max_x86 F32.max.
-Definition f32_argmax_sse2 := @argmax_sse2 F32.t F32.le F32.ninf.
-Definition f32_max_sse2 := @pipeline_sse2_max F32.t F32.le F32.ninf.
-Definition f32_dispatch_argmax := @dispatch_argmax_f32 F32.t F32.le F32.lt F32.ninf.
+Definition f32_argmax_sse2 := @argmax_sse2_fast F32.t F32.le F32.ninf.
+Definition f32_max_sse2 := @pipeline_sse2_max_fast F32.t F32.le F32.ninf.
+Definition f32_dispatch_argmax := @dispatch_argmax_f32_fast F32.t F32.le F32.lt F32.ninf.
 Definition f32_dispatch_max := @dispatch_max_f32 F32.t F32.le F32.max_x86 F32.max.
 Definition f32_dispatch_threshold := @dispatch_threshold F32.t F32.le.
 Definition f32_ss_argmax := @ss_argmaxN F32.t.
@@ -31,6 +31,8 @@ Definition f32_check_threshold := @check_threshold F32.t F32.le.
 Definition f32_check_C07 := @check_C07 F32.t F32.le.
 Definition f32_index_usize := @index_usize F32.t.
 Definition f32_get := @get F32.t.
+Definition f32_max_of_argmax := @max_of_argmax F32.t.
+Definition u8_max_of_argmax := @max_of_argmax Z.
 (* DNA: wildcard N has index 4; an out-of-range symbol index would read NaN *)
 Definition f32_score_def := @score_def F32.t F32.add F32.zero 4 F32.nan.
 Definition f32_terms_ok := @terms_ok F32.t F32.add F32.zero 4 F32.nan f32_okv.
@@ -65,7 +67,7 @@ Extraction "maxi_model.ml"
   mk_f32 bits_f32 f32_is_nan f32_le f32_argmax_generic f32_max_generic f32_threshold
   f32_argmax_avx2 f32_max_avx2 f32_argmax_sse2 f32_max_sse2 f32_dispatch_argmax f32_dispatch_max
   f32_dispatch_threshold f32_ss_argmax f32_ss_threshold f32_unstripe f32_lin_argmax f32_lin_max
-  f32_lin_threshold f32_check_max f32_check_argmax f32_check_threshold f32_check_C07 f32_index_usize f32_get
+  f32_lin_threshold f32_check_max f32_check_argmax f32_check_threshold f32_check_C07 f32_index_usize f32_get f32_max_of_argmax u8_max_of_argmax
   f32_score_def f32_terms_ok f32_check_padding f32_check_padding_max f32_okv f32_is_ninf f32_ninf f32_is_finite
   u8_argmax_generic u8_max_generic u8_threshold u8_argmax_avx2 u8_max_avx2 u8_dispatch_argmax
   u8_dispatch_max u8_ss_argmax u8_ss_threshold u8_unstripe u8_lin_argmax u8_lin_max u8_lin_threshold
